@@ -78,6 +78,8 @@ class Req:
         self.marker = name
         self.conn_at_end: Optional[int] = None
         self.body_ok = True
+        self.had_conn = False
+        self.conns_used: List[int] = []
 
 
 class ToExec:
@@ -92,6 +94,9 @@ class ToExec:
 
         self.aiohttp = aiohttp
         self.loop = loop
+        self.params = dict(limit=limit, to=dict(to or {}), body=body, expect100=expect100, thr=thr,
+                           big_chunk=big_chunk, chunked_resp=chunked_resp, offset=offset, cutsel=cutsel,
+                           horizon=horizon)
         loop._thread_id = threading.get_ident()       # is_running() -> True: eager tasks start eagerly (3.12)
         loop._vtime = offset
         self.limit = limit
@@ -209,10 +214,10 @@ class ToExec:
         rq = self.reqs[name]
         if rq.status != "pending":
             return rq.status
-        if self.conn_of(name) is not None:
+        if self.conn_of(name) is not None or rq.had_conn:
             return "exchange"
         for c in self.kit.sock_calls:
-            if c.owner == name and c.pending:
+            if c.owner == name and not c.finished:
                 return "sock"
         for pc in self.created_by(name):
             if pc.owner is None and not pc.history and not pc.tr.closing:
@@ -241,11 +246,11 @@ class ToExec:
         as the connection exists (or from now on, if it exists already)."""
         pc = self.conn_of(name)
         if pc is None:
-            cands = [p for p in self.created_by(name) if not p.tr.closing]
-            pc = cands[-1] if cands else None
+            cands = [p for p in self.created_by(name) if not p.tr.closing and not p.history]
+            pc = cands[-1] if cands else None      # created by `name`, not yet handed to anybody
         if pc is not None:
             pc.tr.pause_protocol_writing()
-        else:
+        elif not self.reqs[name].had_conn:
             self.pause_next_conn_of = name
         self.rec("pausewriting", who=name)
 
@@ -300,6 +305,23 @@ class ToExec:
         pc.feed(data)
         rq.t_feed = self.loop.time()
         self.rec("deliver", who=name, part=part)
+        return True
+
+    def deliver_n(self, name: str, n: int) -> bool:
+        """Feed the next n bytes of the scripted response (arbitrary segmentation)."""
+        pc = self.conn_of(name)
+        rq = self.reqs[name]
+        if pc is None or not pc.open:
+            return False
+        s = self.script(name)
+        whole = s["head"] + s["c1"] + s["c2"]
+        if rq.fed >= len(whole) or n <= 0:
+            return False
+        data = whole[rq.fed:rq.fed + n]
+        rq.fed += len(data)
+        pc.feed(data)
+        rq.t_feed = self.loop.time()
+        self.rec("deliver", who=name, part=f"n{n}")
         return True
 
     def tick(self) -> bool:
@@ -368,7 +390,8 @@ class ToExec:
             qn = getattr(h._callback, "__qualname__", repr(h._callback))
             if "_weakref_handle" in qn:
                 continue           # connector keep-alive cleanup (owned by the connector)
-            out.append(qn)
+            out.append("read" if "_on_read_timeout" in qn else "total" if "TimeoutHandle" in qn
+                       else "ctx" if "Timeout._on_timeout" in qn else qn)
         return sorted(out)
 
     def _foreign_tasks(self) -> List[str]:
@@ -393,12 +416,12 @@ class ToExec:
             return r
         r["total"] = ms(v.t_start)
         pc = self.conn_of("v")
-        if pc is None:
+        if pc is None and not v.had_conn:
             r["connect"] = ms(v.t_start)
             for c in self.kit.sock_calls:
                 if c.owner == "v" and c.pending:
                     r["sock_connect"] = ms(c.t_start)
-        else:
+        elif pc is not None:
             if v.t_written >= 0 and not pc.tr.reading_paused and pc.open and not pc.tr.inbox:
                 r["sock_read"] = ms(max(v.t_written, v.t_feed, v.t_resume))
         return r
@@ -406,9 +429,18 @@ class ToExec:
     def _track(self) -> None:
         """Book-keeping after every harness action (all from the peer's side of the stubs)."""
         for name, rq in self.reqs.items():
+            tk = self.kit.tasks.get(name)
+            if tk is not None and tk.done() and rq.status == "pending":
+                # the coroutine never ran (cancelled before its first step)
+                rq.status = "cancelled" if tk.cancelled() else "error"
+                rq.exc = "CancelledError" if tk.cancelled() else "?"
+                rq.t_end = self.loop.time()
             pc = self.conn_of(name)
             if pc is None:
                 continue
+            rq.had_conn = True
+            if pc.idx not in rq.conns_used:
+                rq.conns_used.append(pc.idx)
             if rq.t_written < 0 and rq.status == "pending":
                 try:
                     done = len(pc.requests())
@@ -424,8 +456,10 @@ class ToExec:
         v = self.reqs["v"]
         if v.status not in ("new", "pending", "ok") and not self.v_end_recorded:
             self.v_end_recorded = True
+            s = self.script("v")
+            complete = v.t_written >= 0 and v.fed >= len(s["head"] + s["c1"] + s["c2"])
             self.faulted_conns = sorted({pc.idx for pc in self.kit.conns
-                                         if "v" in pc.history[-1:] or
+                                         if ("v" in pc.history[-1:] and not complete) or
                                          (getattr(pc, "creator", None) == "v" and not pc.history)})
         elif v.status == "ok":
             self.v_end_recorded = True
@@ -545,7 +579,7 @@ class ToExec:
     def trace(self, src: str) -> dict:
         cfg = {"limit": self.limit, "thr": ms(self.thr), "horizon": ms(self.horizon),
                "to": {k: ms(v) for k, v in self.to.items()}}
-        return {"cfg": cfg, "src": src, "events": self.events}
+        return {"cfg": cfg, "src": src, "params": self.params, "events": self.events}
 
 
 # ---------------------------------------------------------------- model configs
@@ -572,8 +606,12 @@ CONSTANTS
   Handoff = {Handoff}
   TimerCoversBody = {TimerCoversBody}
   NestedUncancel = {NestedUncancel}
+  RearmChecksEof = {RearmChecksEof}
   Scripted = {Scripted}
-  Stalls = {Stalls}
+  StallsTotal = {StallsTotal}
+  StallsConnect = {StallsConnect}
+  StallsSockc = {StallsSockc}
+  StallsRead = {StallsRead}
   MaxCancelAt = {MaxCancelAt}
   Orders = {Orders}
 {invariants}CHECK_DEADLOCK FALSE
@@ -582,7 +620,8 @@ CONSTANTS
 DEFAULTS = dict(Limit=1, TOtotal=0, TOconnect=0, TOsockc=0, TOread=0, Thr=4, Offset=1, Horizon=14,
                 Body="none", Expect100=False, AllowCancel=True, AllowPause=False, MaxPartial=1, BigChunk=False,
                 ShieldDns=True, CloseOnFail=True, CancelWriter=True, RearmOnResume=True, Handoff=True,
-                TimerCoversBody=True, NestedUncancel=True, Scripted=False, Stalls=["none"], MaxCancelAt=0,
+                TimerCoversBody=True, NestedUncancel=True, RearmChecksEof=False, Scripted=False, StallsTotal=[], StallsConnect=[],
+                StallsSockc=[], StallsRead=[], MaxCancelAt=0,
                 Orders=["vb"])
 INVARIANTS = ["Bounded", "TimeoutClass", "CancelPropagates", "NoResidue", "BystanderUnharmed",
               "SessionUsable", "Accounting"]
@@ -703,6 +742,21 @@ PHASE_OF_PC = {"new": "new", "start": "waiting", "PoolWait": "waiting", "DnsOwn"
                "SockConnect": "sock", "ConnMade": "connmade", "AwaitHeaders": "exchange", "BodyRead": "exchange"}
 
 
+KIND_CONST = {"total": "TOtotal", "connect": "TOconnect", "sockc": "TOsockc", "read": "TOread"}
+
+
+def consts_for(mc: dict, scn: dict) -> dict:
+    """Constants of one scenario: only the scenario's timeout kind is configured."""
+    kind = scn.get("kind", "cfg")
+    if kind == "cfg":
+        return mc
+    c = dict(mc)
+    for k, name in KIND_CONST.items():
+        if k != kind:
+            c[name] = 0
+    return c
+
+
 def exec_for(loop: steploop.StepLoop, mc: dict, cutsel: int = 0, body_variant: int = 0) -> ToExec:
     body = {"none": "none", "small": "small", "block": ("big", "chunked")[body_variant % 2]}[mc["Body"]]
     return ToExec(loop, limit=mc["Limit"],
@@ -722,7 +776,7 @@ def model_phase(info: dict, q: str) -> str:
 
 def replay_path(ctx: Ctx, loop: steploop.StepLoop, path: dict, mc: dict, cutsel: int = 0,
                 body_variant: int = 0, src: str = "tlc-scenario") -> dict:
-    x = exec_for(loop, mc, cutsel, body_variant)
+    x = exec_for(loop, consts_for(mc, path["scn"]), cutsel, body_variant)
     drift = None
     for (label, before, after) in path["steps"]:
         act, args = parse_action(label)
@@ -768,7 +822,7 @@ def replay_path(ctx: Ctx, loop: steploop.StepLoop, path: dict, mc: dict, cutsel:
             drift = f"time:{act}"
             break
         if any(model_phase(after, q) != (o["ph"][q] if o["st"][q] == "pending" else o["st"][q]) for q in ("v", "b")):
-            drift = f"state:{act}:{after['pc'].get('v')}"
+            drift = f"state:{act}:{after['pc'].get('v')}/{after['pc'].get('b')}:{o['ph']['v']}/{o['ph']['b']}"
             break
     if drift:
         ctx.drift(drift)
@@ -796,10 +850,415 @@ def judge(ctx: Ctx, traces: List[dict], label: str) -> List[Any]:
             info = v.info if isinstance(v.info, str) else ""
             kinds = "+".join(k for k, d in t["cfg"]["to"].items() if d)
             prevph = t["events"][v.pos - 1]["obs"]["ph"].get("v") if v.pos > 0 else "?"
-            sig = f"{v.clause}[{info}] timeouts={kinds or 'none'} victim-phase={prevph} after " + ",".join(hist)
+            if v.clause in NAMED:
+                sig = NAMED[v.clause]
+            else:
+                sig = f"{v.clause}[{info}] timeouts={kinds or 'none'} victim-phase={prevph} after " + ",".join(hist)
             ctx.violation(v.clause, sig, {"trace": t, "failed_at": v.pos, "label": label}, "trace")
     t0 = traces[0]
     ctx.sample({"src": t0["src"], "cfg": t0["cfg"], "scn": t0.get("scn"),
                 "events": [[e["ev"], e["who"], e["part"], e["obs"]["t"], e["obs"]["st"]["v"], e["obs"]["ph"]["v"]]
                            for e in t0["events"][:14]]})
     return verdicts
+
+
+def path_from_behaviour(beh: List[Any]) -> dict:
+    """Adapter: a behaviour from simulate_behaviours -> the path shape replay_path consumes."""
+    def info(st: dict) -> dict:
+        ss = st["s"]
+        rd = ss["ready"]
+        head = None
+        if rd:
+            h = list(rd[0])
+            head = (str(h[0]), str(h[1]) if len(h) > 1 else None)
+        return {"now": int(ss["now"]), "head": head, "pc": {str(k): str(v) for k, v in ss["pc"].items()},
+                "outcome": {str(k): str(v) for k, v in ss["outcome"].items()},
+                "scn": {str(k): str(v) for k, v in st["scn"].items()}}
+    infos = [info(st) for _, st in beh]
+    steps = [(beh[i][0], infos[i - 1], infos[i]) for i in range(1, len(beh))]
+    return {"scn": infos[0]["scn"], "steps": steps}
+
+
+# ---------------------------------------------------------------- random fault schedules (driver B)
+def random_exec(ctx: Ctx, loop: steploop.StepLoop, rng: Any) -> dict:
+    limit = rng.choice([1, 1, 2])
+    to = {}
+    for k in KINDS:
+        if rng.random() < 0.45:
+            to[k] = rng.choice([0.5, 1.0, 1.5, 2.5, 3.0, 6.0])
+    body = rng.choice(["none", "none", "none", "small", "big", "chunked"])
+    expect100 = body != "none" and rng.random() < 0.35
+    big_chunk = rng.random() < 0.25
+    x = ToExec(loop, limit=limit, to=to, body=body, expect100=expect100, thr=rng.choice([2.0, 5.0]),
+               big_chunk=big_chunk, chunked_resp=big_chunk or rng.random() < 0.6,
+               offset=rng.choice([0.0, 0.25, 0.5, 0.9]), cutsel=rng.randint(0, 6), horizon=20.0)
+    allow_cancel = rng.random() < 0.6
+    allow_fault = rng.random() < 0.08
+    stall_v = rng.random() < 0.7        # the victim's environment tends to stall
+    for _ in range(rng.randint(8, 70)):
+        acts: List[tuple] = []
+        for n in ("v", "b"):
+            if x.reqs[n].status == "new":
+                acts += [("start", n)] * 4
+        if not x.loop.is_idle():
+            acts += [("step", None)] * 8
+        if any(c.pending for c in x.kit.dns_calls):
+            acts += [("dns", None)] * (1 if stall_v else 3)
+        for n in ("v", "b"):
+            w = 1 if (n == "v" and stall_v) else 4
+            if any(c.owner == n and c.pending for c in x.kit.sock_calls):
+                acts += [("sock", n)] * w
+            rq = x.reqs[n]
+            pc = x.conn_of(n)
+            if pc is not None and rq.status == "pending" and pc.open:
+                if rq.t_written >= 0:
+                    acts += [("feed", n)] * w
+                    if n == "b":
+                        acts += [("all", n)] * 3
+                elif n == "v" and expect100 and "cont" not in rq.fed_parts:
+                    acts += [("cont", n)] * 2
+                if n == "v" and pc.tr.write_paused:
+                    acts += [("resume", n)]
+                if n == "v" and allow_fault and rng.random() < 0.1:
+                    acts += [("peerclose", n)]
+        v = x.reqs["v"]
+        if v.status in ("new", "pending") and x.conn_of("v") is None and x.pause_next_conn_of is None \
+                and body in ("big", "chunked") and rng.random() < 0.3:
+            acts += [("pause", "v")]
+        if v.status == "pending" and allow_cancel and not v.cancel_requested and rng.random() < 0.12:
+            acts += [("cancel", "v")] * 2
+        if x.loop.is_idle() and x.loop.time() < x.horizon:
+            acts += [("tick", None)] * 3
+        elif x.loop.time() < x.horizon and rng.random() < 0.1:
+            acts += [("tick", None)]
+        if not acts:
+            break
+        a, n = rng.choice(acts)
+        if a == "start":
+            x.start(n)
+        elif a == "step":
+            x.step()
+        elif a == "dns":
+            x.dns_done()
+        elif a == "sock":
+            x.sock_done(n)
+        elif a == "feed":
+            x.deliver_n(n, rng.choice([1, 2, 3, 5, 9, 17, 40, 400]))
+        elif a == "all":
+            x.deliver(n, "all")
+        elif a == "cont":
+            x.deliver(n, "cont")
+        elif a == "resume":
+            x.resume_writing(n)
+        elif a == "pause":
+            x.pause_writing(n)
+        elif a == "peerclose":
+            x.peer_close(n)
+        elif a == "cancel":
+            x.cancel(n)
+        elif a == "tick":
+            if not x.loop.is_idle():
+                # time passes only while the loop is idle (virtual time)
+                x.settle()
+            x.tick()
+    x.finish()
+    tr = x.trace("random")
+    x.teardown()
+    return tr
+
+
+def dedupe(traces: List[dict]) -> List[dict]:
+    seen = set()
+    out = []
+    for t in traces:
+        k = json.dumps([t["cfg"], [(e["ev"], e["who"], e["part"], e["obs"]["t"]) for e in t["events"]]])
+        if k not in seen:
+            seen.add(k)
+            out.append(t)
+    return out
+
+
+# ---------------------------------------------------------------- check
+NAMED = {
+    "CancelSwallowedNestedTimer":
+        "total timeout and caller cancel both reach the victim while it awaits the response head: "
+        "TimerContext.__exit__ runs twice (ClientResponse.start inside ClientSession._request), both levels call "
+        "task.uncancel(), the outer one turns the caller's CancelledError into TimeoutError",
+    "ReadTimerRearmedAfterEof":
+        "ResponseHandler.resume_reading() re-arms the sock_read timer after resuming the parser completed the "
+        "payload and released the connection: the timer fires on the idle pooled connection, the next request "
+        "that reuses it fails at once with SocketTimeoutError",
+}
+AS_CODED_INV = ["Bounded", "TimeoutClass", "CancelPropagatesButNested", "NoResidueButRearm", "BystanderUnharmed",
+                "SessionUsable", "Accounting"]
+ALL_STALLS = ["none", "pool", "dns", "sock", "headers", "partial", "body", "qpart", "data"]
+
+
+def free_models(ctx: Ctx) -> List[tuple]:
+    """(name, constants, as-coded invariants, also-check-the-repaired-design)"""
+    no_su = [i for i in AS_CODED_INV if i != "SessionUsable"]
+    ms_ = [
+        ("total<thr L1", dict(TOtotal=3), AS_CODED_INV, True),
+        ("all four kinds L2", dict(TOtotal=6, TOconnect=5, TOsockc=3, TOread=2, Limit=2), AS_CODED_INV, False),
+        ("sock_read + big chunk (read pause/resume)", dict(TOread=3, BigChunk=True), no_su, True),
+        ("total>=thr + blocked writer", dict(TOtotal=5, Body="block", AllowPause=True), AS_CODED_INV, False),
+        ("sock_read + expect100", dict(TOread=3, Body="small", Expect100=True), AS_CODED_INV, False),
+    ]
+    if not ctx.quick:
+        ms_ += [
+            ("connect>thr L1 offset 0", dict(TOconnect=5, Offset=0), AS_CODED_INV, False),
+            ("sock_connect L2", dict(TOsockc=3, Limit=2), AS_CODED_INV, False),
+            ("total + sock_read, 2 partial deliveries, L2", dict(TOtotal=7, TOread=3, MaxPartial=2, Limit=2, Horizon=16),
+             AS_CODED_INV, True),
+            ("total + expect100 + blocked writer", dict(TOtotal=5, Body="block", Expect100=False, AllowPause=True, Limit=2),
+             AS_CODED_INV, False),
+            ("total + read + big chunk L2", dict(TOtotal=6, TOread=3, BigChunk=True, Limit=2), no_su, True),
+        ]
+    return ms_
+
+
+def scripted_configs(ctx: Ctx) -> List[tuple]:
+    base = dict(Scripted=True, TOtotal=3, TOconnect=5, TOsockc=3, TOread=3, MaxCancelAt=ctx.pick(6, 8))
+    main = dict(base, StallsTotal=ALL_STALLS,
+                StallsConnect=ctx.pick(["pool", "dns", "sock", "headers"], ALL_STALLS),
+                StallsSockc=ctx.pick(["sock", "dns"], ALL_STALLS),
+                StallsRead=ctx.pick(["headers", "partial", "body", "qpart", "data", "sock"], ALL_STALLS),
+                Orders=ctx.pick(["vb", "hold"], ["vb", "bv", "hold"]))
+    out = [("body none", main),
+           ("blocked writer", dict(base, Body="block", AllowPause=True, StallsTotal=["write", "headers"],
+                                   StallsRead=["write", "body"], Orders=["vb"])),
+           ("expect100", dict(base, Body="small", Expect100=True, StallsTotal=["cont", "headers"],
+                              StallsRead=["cont", "headers"], Orders=["vb"])),
+           ("big chunk", dict(base, BigChunk=True, StallsTotal=["data"], StallsRead=["data", "none"], Orders=["vb"]))]
+    if not ctx.quick:
+        out += [("body none L2, total>=thr", dict(main, Limit=2, TOtotal=6, TOconnect=4, Offset=0)),
+                ("blocked writer L2", dict(base, Limit=2, Body="block", AllowPause=True, StallsTotal=["write", "headers", "none"],
+                                           StallsRead=["write", "body"], StallsConnect=["write"], Orders=["vb", "hold"]))]
+    return out
+
+
+def run(ctx: Ctx) -> None:
+    ctx.rule = ("executions = every scenario of the scripted ClientTimeouts model (stall point x timeout kind x "
+                "cancel at the n-th victim step, before/after its wake-up) replayed handle by handle into a real "
+                "ClientSession/TCPConnector with stalled resolver, sockets and peer (several byte phases per stall) "
+                "+ TLC-simulated free behaviours + seeded random fault schedules; distinct = different "
+                "(event, request, part, victim status) sequences of >= 6 events")
+    ctx.assumptions = [
+        "virtual time: handles take no time, the clock moves only while the loop is idle (to the next timer)",
+        "one address per host name; TLS handshake and happy-eyeballs staggering are below the stubbed socket layer",
+        "the peer answers only after the request was written (100 Continue excepted); sock_read counts from the "
+        "latest of request written / bytes received / reading resumed and does not cover the send phase",
+        "the shared DNS lookup task belongs to the connector (shielded by design), not to the request",
+        "a connection whose complete response was delivered before the fault may stay pooled (it is clean)",
+        "WebSocket close timeouts are checked by C13",
+        "eager task start as on Python 3.12 (loop.is_running() forced true on the stepping loop)",
+    ]
+    loop = steploop.new_loop()
+    named_model: List[tuple] = []
+    # ---- 1. bounded models (free environment, every interleaving)
+    for (name, kw, inv, ideal) in free_models(ctx):
+        res = run_tlc("ClientTimeouts", write_cfg("free", invariants=inv, **kw), workers=16,
+                      timeout=ctx.pick(400, 3000), deadlock=False)
+        ok = ctx.expect_model_ok(f"ClientTimeouts[as coded, named deviations excluded]({name})", res)
+        ctx.log(f"model[as coded] {name}: {res.distinct} states ok={ok} {res.wall_s:.0f}s")
+        if ideal:
+            res = run_tlc("ClientTimeouts", write_cfg("ideal", NestedUncancel=False, RearmChecksEof=True, **kw),
+                          workers=16, timeout=ctx.pick(400, 3000), deadlock=False)
+            ok = ctx.expect_model_ok(f"ClientTimeouts[repaired]({name})", res)
+            ctx.log(f"model[repaired] {name}: {res.distinct} states ok={ok} {res.wall_s:.0f}s")
+    # the as-coded model with the full invariants: TLC exhibits the two named deviations
+    from engine.tlc import require_clean
+    for (clause, inv, kw) in [("CancelSwallowedNestedTimer", "CancelPropagates", dict(TOtotal=3)),
+                              ("ReadTimerRearmedAfterEof", "NoResidue", dict(TOread=3, BigChunk=True))]:
+        res = run_tlc("ClientTimeouts", write_cfg("dev", invariants=[inv], **kw), workers=8, timeout=300, deadlock=False)
+        require_clean(res, f"ClientTimeouts[as coded, {inv}]")
+        ctx.add_model(f"ClientTimeouts[as coded, full {inv}]", res, exhaustive=False)
+        if res.violated == inv:
+            named_model.append((clause, {"trace": [(a, st) for a, st in res.trace]}))
+        elif res.violated:
+            ctx.violation(f"model:{res.violated}", f"as-coded model: {res.violated}", {"trace": res.trace}, "model")
+    # ---- 2. spec -> code: all scenarios of the scripted model
+    traces: List[dict] = []
+    nscn = 0
+    for (name, kw) in scripted_configs(ctx):
+        mc = dict(DEFAULTS)
+        mc.update(kw)
+        paths, res = scenario_paths(write_cfg("scr", invariants=[], **mc), timeout=ctx.pick(600, 3000),
+                                    per_init=ctx.pick(3, 6))
+        ctx.add_model(f"ClientTimeouts[scripted scenarios]({name})", res, exhaustive=True)
+        scns = {json.dumps(p["scn"], sort_keys=True) for p in paths}
+        nscn += len(scns)
+        n0 = len(traces)
+        for p in paths:
+            labels = [l for l, _, _ in p["steps"]]
+            has_cut = any(("partial" in l or '"data"' in l) for l in labels)
+            variants = [(0, 0)]
+            if has_cut:
+                variants += [(c, 0) for c in ctx.pick((1, 3, 4, 6), (1, 2, 3, 4, 5, 6))]
+            if mc["Body"] == "block":
+                variants += [(0, 1)]
+            for (cut, bv) in variants:
+                traces.append(replay_path(ctx, loop, p, mc, cutsel=cut, body_variant=bv))
+        ctx.log(f"scripted {name}: {res.distinct} states, {len(scns)} scenarios, {len(paths)} paths, "
+                f"{len(traces) - n0} replays; drift so far: {dict(ctx.drifts)}")
+    ctx.extra["scenarios_replayed"] = nscn
+    uniq = dedupe(traces)
+    ctx.extra["scenario_replays"] = {"replays": len(traces), "distinct_executions": len(uniq)}
+    for i in range(0, len(uniq), 1500):
+        judge(ctx, uniq[i:i + 1500], "tlc-scenario")
+    # ---- 3. TLC-simulated behaviours of the free model
+    sims: List[dict] = []
+    for (name, kw) in [("all four kinds L2", dict(TOtotal=6, TOconnect=5, TOsockc=3, TOread=2, Limit=2)),
+                       ("blocked writer", dict(TOtotal=5, TOread=3, Body="block", AllowPause=True)),
+                       ("expect100 + big chunk", dict(TOtotal=6, TOread=3, Body="small", Expect100=True, BigChunk=True))]:
+        mc = dict(DEFAULTS)
+        mc.update(kw)
+        behs, _ = simulate_behaviours("ClientTimeouts", write_cfg("sim", invariants=[], **mc),
+                                      num=ctx.pick(80, 1500), depth=45, seed=ctx.seed, timeout=600)
+        for k, b in enumerate(behs):
+            sims.append(replay_path(ctx, loop, path_from_behaviour(b), mc, cutsel=k % 7, body_variant=k % 2,
+                                    src="tlc-sim"))
+    ctx.log(f"replayed {len(sims)} simulated behaviours; drift: {dict(ctx.drifts)}")
+    sims = dedupe(sims)
+    for i in range(0, len(sims), 1500):
+        judge(ctx, sims[i:i + 1500], "tlc-sim")
+    # ---- 4. random fault schedules
+    batch: List[dict] = []
+    for _ in range(ctx.pick(1000, 25000)):
+        batch.append(random_exec(ctx, loop, ctx.rng))
+        if len(batch) >= 1500:
+            judge(ctx, batch, "random")
+            batch = []
+    judge(ctx, batch, "random")
+    for (clause, detail) in named_model:
+        ctx.violation(clause, NAMED[clause], detail, "model")
+    ctx.evaluations = ctx.traces
+    ctx.extra["replay_action_counts"] = dict(ctx.action_cover)
+    loop.uninstall()
+
+
+def reexecute(loop: steploop.StepLoop, t: dict) -> dict:
+    """Run the recorded environment actions of a trace again against the real code."""
+    p = dict(t["params"])
+    x = ToExec(loop, **p)
+    for e in t["events"]:
+        ev, who, part = e["ev"], e["who"], e["part"]
+        if ev in ("init", "idle"):
+            continue
+        if ev in ("served", "probe", "final") or (ev == "start" and who.startswith("f")):
+            break
+        if ev == "start":
+            x.start(who)
+        elif ev == "step":
+            if who:
+                x.step()
+            else:
+                x._run_nontask()
+                x.rec("step", who="")
+        elif ev == "dnsdone":
+            x.dns_done()
+        elif ev == "sockdone":
+            x.sock_done(who)
+        elif ev == "pausewriting":
+            x.pause_writing(who)
+        elif ev == "resumewriting":
+            x.resume_writing(who)
+        elif ev == "deliver":
+            if part.startswith("n") and part[1:].isdigit():
+                x.deliver_n(who, int(part[1:]))
+            else:
+                x.deliver(who, part)
+        elif ev == "tick":
+            x.tick()
+        elif ev == "cancel":
+            x.cancel(who)
+        elif ev == "peerclose":
+            x.peer_close(who)
+    x.finish()
+    tr = x.trace("replay")
+    x.teardown()
+    return tr
+
+
+def selftest(ctx: Ctx) -> int:
+    import copy
+    loop = steploop.new_loop()
+    ok = True
+    # (ii) spec-level mutants: a constant that disables the mechanism must be caught by TLC
+    for (what, kw, want) in [
+            ("CloseOnFail=FALSE (failed exchange returned to the pool)", dict(TOtotal=3, CloseOnFail=False), {"NoResidue", "SessionUsable"}),
+            ("ShieldDns=FALSE (cancel reaches the shared lookup)", dict(TOtotal=3, Limit=2, ShieldDns=False), {"BystanderUnharmed"}),
+            ("CancelWriter=FALSE", dict(TOtotal=3, Body="block", AllowPause=True, CancelWriter=False), {"NoResidue"}),
+            ("RearmOnResume=FALSE", dict(TOread=3, BigChunk=True, RearmOnResume=False), {"Bounded"}),
+            ("TimerCoversBody=FALSE", dict(TOtotal=3, TimerCoversBody=False), {"Bounded"})]:
+        res = run_tlc("ClientTimeouts", write_cfg("mut", NestedUncancel=False, RearmChecksEof=True, **kw),
+                      workers=8, timeout=300, deadlock=False)
+        print(f"mutant model {what}: violated={res.violated}")
+        ok = ok and res.violated in want
+    # vacuity: every action of the repaired model fires
+    res = run_tlc("ClientTimeouts", write_cfg("cov", NestedUncancel=False, RearmChecksEof=True, TOtotal=6, TOread=3,
+                                             Body="block", AllowPause=True, BigChunk=True),
+                  workers=4, timeout=600, deadlock=False, coverage=True)
+    dead = [a for a in ("Run", "CallerCancel", "Start", "SockDone", "DnsDone", "PauseNext", "ResumeWriting", "Tick", "Deliver")
+            if res.coverage.get(a, (0, 0))[1] == 0]
+    print("action coverage:", {k: v[1] for k, v in res.coverage.items()}, "never fired:", dead)
+    ok = ok and res.ok and not dead
+    # (i) trace-level: a good recorded execution and corrupted copies
+    x = ToExec(loop, limit=1, to={"total": 1.5}, offset=0.5, horizon=7.0)
+    x.start("v"); x.settle(); x.start("b"); x.settle(); x.dns_done(); x.settle(); x.sock_done("v"); x.settle()
+    x.deliver("v", "partial"); x.settle(); x.tick(); x.settle()
+    x.finish()
+    good = x.trace("selftest")
+    x.teardown()
+    k = next(i for i, e in enumerate(good["events"]) if e["obs"]["st"]["v"] == "timeout")
+    bad1 = copy.deepcopy(good)               # the victim's failure is dropped: it stays pending past the deadline
+    for e in bad1["events"][k:]:
+        e["obs"]["st"]["v"] = "pending"
+        e["obs"]["refs"]["total"] = good["events"][k - 1]["obs"]["refs"]["total"]
+        e["obs"]["t"] = max(e["obs"]["t"], 7000)
+    bad2 = copy.deepcopy(good)               # the faulted connection is still open
+    for e in bad2["events"][k:]:
+        e["obs"]["open"] = sorted(set(e["obs"]["open"]) | set(e["obs"]["faulted"]) | {0})
+        e["obs"]["faulted"] = e["obs"]["faulted"] or [0]
+    bad3 = copy.deepcopy(good)               # the caller had cancelled: a TimeoutError swallows it
+    for e in bad3["events"][k:]:
+        e["obs"]["cancelreq"] = True
+    bad3["events"][k - 1]["obs"]["ph"]["v"] = "waiting"
+    bad4 = copy.deepcopy(good)               # the bystander is reported cancelled
+    bad4["events"][-1]["obs"]["st"]["b"] = "cancelled"
+    bad5 = copy.deepcopy(good)               # an event is dropped: the timeout comes before any delay elapsed
+    del bad5["events"][k - 3:k]
+    bad5["events"][k - 3]["obs"]["tend"]["v"] = 600
+    vs, _ = validate_batch("ClientTimeoutsTrace", "ClientTimeoutsTrace.cfg", [good, bad1, bad2, bad3, bad4, bad5])
+    got = [(v.ok, v.clause) for v in vs]
+    print(got)
+    ok = ok and vs[0].ok and [v.clause for v in vs[1:]] == ["Bounded", "NoResidue", "CancelPropagates",
+                                                            "BystanderUnharmed", "EarlyTimeout"]
+    print("selftest", "passed" if ok else "FAILED")
+    loop.uninstall()
+    return 0 if ok else 2
+
+
+def replay(ctx: Ctx, path: str) -> int:
+    payload = json.load(open(path))
+    t = payload["detail"].get("trace") if isinstance(payload.get("detail"), dict) else None
+    if not isinstance(t, dict) or "events" not in t:
+        print("replay: model counterexample (TLC trace of the as-coded model):")
+        for a, st in (t or [])[:60] if isinstance(t, list) else []:
+            ss = st.get("s", {}) if isinstance(st, dict) else {}
+            print("  ", a, "now", ss.get("now"), "pc", ss.get("pc"), "outcome", ss.get("outcome"))
+        print("re-run ./check C18 to reproduce it against the code (trace replays are written for the same clause)")
+        return 0
+    loop = steploop.new_loop()
+    tr = reexecute(loop, t)
+    vs, _ = validate_batch("ClientTimeoutsTrace", "ClientTimeoutsTrace.cfg", [tr])
+    v = vs[0]
+    print(f"replay (events re-executed against the code): ok={v.ok} clause={v.clause!r} info={v.info!r} pos={v.pos}/{v.total}")
+    for e in tr["events"][max(0, v.pos - 12):v.pos + 1]:
+        o = e["obs"]
+        print("  ", e["ev"], e["who"], e["part"], "t=", o["t"], "st=", o["st"], "timers=", o["timers"], "tasks=", o["tasks"])
+    loop.uninstall()
+    if not v.ok:
+        print(f"VIOLATION property=C18 replay={path}")
+        return 1
+    return 0
